@@ -24,6 +24,8 @@ PRODUCER_OPS = ['rank_transform', 'sqrt_transform', 'positive_transform', 'minma
 
 def gen_family(rng, n_roots=(1, 3), n_cond=(2, 8), n_rdm=(1, 4)):
     nc = rng.randint(*n_cond)
+    if n_cond == (2, 8) and rng.chance(0.08):
+        nc = rng.randint(17, 26)       # beyond the sizes where sorts / look-ups switch algorithms
     cond_uids = rng.sample(range(0, 31), nc)
     pat_desc = {'grp': gen.gen_grouping(rng, nc)}
     if rng.chance(0.7):
@@ -34,7 +36,7 @@ def gen_family(rng, n_roots=(1, 3), n_cond=(2, 8), n_rdm=(1, 4)):
     roots = []
     used = set()
     measure = rng.pick(['euclidean', None, 'corr'])
-    rtyp = rng.pick(['int', 'str'])
+    rtyp = rng.pick(['int', 'str', 'float'])
     wgt = rng.chance(0.4)      # a float64 ndarray rdm descriptor usable as weights      # one label type per descriptor across the family (mixed-type columns are coerced by numpy)
     for _ in range(rng.randint(*n_roots)):
         nr = rng.randint(*n_rdm)
@@ -45,7 +47,7 @@ def gen_family(rng, n_roots=(1, 3), n_cond=(2, 8), n_rdm=(1, 4)):
                 'rdm_desc': {'grp': gen.gen_grouping(rng, nr, typ=rtyp),
                              **({'wgt': {'values': [1.0 + 0.5 * i for i in range(nr)], 'container': 'array'}} if wgt else {}),
                              'extra': {'values': ['x%d' % u for u in ru], 'container': rng.pick(['list', 'array'])}},
-                'pat_desc': pat_desc, 'nan_cells': []}
+                'pat_desc': pat_desc, 'nan_cells': [], 'order': 'F' if rng.chance(0.2) else 'C'}
         if rng.chance(0.25) and nc >= 4:
             i, j = sorted(rng.sample(range(nc), 2))
             spec['nan_cells'].append([rng.randrange(nr), i, j])
